@@ -4,6 +4,7 @@ import (
 	"bufio"
 	"fmt"
 	"io"
+	"os"
 
 	gots "github.com/Comcast/gots/v2"
 	"github.com/Comcast/gots/v2/packet"
@@ -43,6 +44,13 @@ func c18Make(adapter int, w *ref.ScriptedPacketWriter) io.Writer {
 }
 
 // c18WrappedEOF is a reader failure of its own that wraps io.EOF (errors.Is(err, io.EOF) holds, err != io.EOF).
+// c18TimeoutErr is a net.Error-style timeout.
+type c18TimeoutErr struct{}
+
+func (c18TimeoutErr) Error() string   { return "scripted reader: i/o timeout" }
+func (c18TimeoutErr) Timeout() bool   { return true }
+func (c18TimeoutErr) Temporary() bool { return true }
+
 var c18WrappedEOF = fmt.Errorf("scripted reader: connection lost: %w", io.EOF)
 
 func c18ReadFrom(w io.Writer, r io.Reader) (int64, error) {
@@ -282,11 +290,15 @@ func c18CheckUniform(c c18UniCase) engine.Result {
 		// the injected error or io.ErrUnexpectedEOF, failing write reporting 0 / 188 / 100 bytes
 		variant++
 		sr.FailOnce = variant%2 == 1
-		switch variant % 4 {
+		switch variant % 7 {
 		case 0:
 			sr.FailErr = io.ErrUnexpectedEOF
 		case 3:
 			sr.FailErr = c18WrappedEOF // the reader's own failure, which merely wraps io.EOF
+		case 4:
+			sr.FailErr = os.ErrDeadlineExceeded // a read deadline that expired (net.Conn, pipes)
+		case 5:
+			sr.FailErr = c18TimeoutErr{} // a net.Error-style timeout
 		}
 		spw.Reset(wfail)
 		spw.FailN = []int{0, 188, 100}[variant%3]
@@ -301,7 +313,24 @@ func c18CheckUniform(c c18UniCase) engine.Result {
 			return fmt.Sprintf("%s.ReadFrom, stream of %d packets + %d bytes, reader hands out %d bytes per call (after %d empty reads each), EOF with data %v, Read call #%d fails (with data %v), packet write #%d fails",
 				c18Adapters[c.Adapter], c.Packets, c.Tail, c.Chunk, c.Hesitate, eofData, failCall, failData, wfail)
 		})
-		return sr.Calls
+		calls = sr.Calls
+		if failCall > 0 || wfail >= 0 || c.Tail > 0 {
+			// the SAME adapter reads another stream afterwards (two whole packets, a sound reader and writer):
+			// nothing of the failed or partial first call may be left in it
+			firstErr := err
+			data2 := c18Stream[3*188 : 5*188]
+			sr2 := ref.ScriptedReader{Data: data2, Chunk: c.Chunk}
+			spw.Reset(-1)
+			res.Evals++
+			if engine.Guard(&res, "ReadFrom(second call on the adapter)", func() { n, err = c18ReadFrom(w, &sr2) }) {
+				return calls
+			}
+			if n != 2*188 || err != nil || spw.Calls != 2 || string(spw.Got[0][:]) != string(data2[:188]) || string(spw.Got[1][:]) != string(data2[188:]) {
+				res.Failf("ReadFrom|second-call-on-the-same-adapter|differs-from-a-fresh-adapter", "%s: after a first ReadFrom that ended with %v (stream of %d packets + %d bytes, %d bytes per Read), a second ReadFrom of two whole packets returned n=%d err=%v with %d deliveries",
+					c18Adapters[c.Adapter], firstErr, c.Packets, c.Tail, c.Chunk, n, err, spw.Calls)
+			}
+		}
+		return calls
 	}
 	for _, eofData := range []bool{false, true} {
 		calls := run(eofData, 0, false, -1)
@@ -524,7 +553,7 @@ func init() {
 		},
 		&engine.Enum[c18UniCase]{
 			Name: "readfrom-uniform-chunks",
-			Rule: "ReadFrom over streams of 0..3 packets + tail {0,1,187} bytes (thorough 0..4 packets, tail {0,1,94,187}) x reader that hands out exactly c bytes per call for every c in 1..377 (for c in {1..4,93..95,186..190,377} also with 1 or 2 Reads answering (0,nil) before every data Read) x EOF on a separate call / attached to the last data x injected reader error at no call and at every call (without and together with that call's data) x failing packet write at no index and every index; adapter rotates with the case in quick, all four in thorough. Oracle: deliveries == the stream's complete packets in order, byte-equal; n == 188 x successful deliveries; no fault => all complete packets delivered, ErrInvalidPacketLength iff a partial tail remains, else nil; reader error => that error, and every packet completed by the bytes handed out (also those that came together with the error) delivered; writer error => that error (either one if both occurred) and no delivery after it; non-trivial = chunk < 188 and shorter than the stream (some packet is cut)",
+			Rule: "ReadFrom over streams of 0..3 packets + tail {0,1,187} bytes (thorough 0..4 packets, tail {0,1,94,187}) x reader that hands out exactly c bytes per call for every c in 1..377 (for c in {1..4,93..95,186..190,377} also with 1 or 2 Reads answering (0,nil) before every data Read) x EOF on a separate call / attached to the last data x injected reader error at no call and at every call (without and together with that call's data) x failing packet write at no index and every index; adapter rotates with the case in quick, all four in thorough. the injected error rotates through a plain error, io.ErrUnexpectedEOF, an error wrapping io.EOF, os.ErrDeadlineExceeded and a net.Error-style timeout; after every run that ended with a fault or a partial packet the SAME adapter reads a second, sound stream of two packets, which must come out as from a fresh adapter. Oracle: deliveries == the stream's complete packets in order, byte-equal; n == 188 x successful deliveries; no fault => all complete packets delivered, ErrInvalidPacketLength iff a partial tail remains, else nil; reader error => that error, and every packet completed by the bytes handed out (also those that came together with the error) delivered; writer error => that error (either one if both occurred) and no delivery after it; non-trivial = chunk < 188 and shorter than the stream (some packet is cut)",
 			Gen: func(r *engine.Run, emit func(c18UniCase)) {
 				pks, tails := c18Shapes(r.Thorough())
 				for _, p := range pks {
